@@ -319,9 +319,9 @@ func ruleJS(c *Ctx) {
 	balanced := true
 	balWhy := ""
 	nObj := 0
-	written := map[string]bool{}     // SchemaObject fields written on some path
+	written := map[string]bool{}               // SchemaObject fields written on some path
 	attrByType := map[string]map[string]bool{} // s.Type constant -> names written
-	keyOK := map[string]string{}     // name -> "" ok or reason
+	keyOK := map[string]string{}               // name -> "" ok or reason
 	for _, p := range paths {
 		if !p.Succ {
 			continue
@@ -418,6 +418,37 @@ func ruleJS(c *Ctx) {
 			}
 		}
 	}
+	// ... and on every object path it is either written or known to be empty: a path that never looks at it loses it
+	for _, p := range paths {
+		if !p.Succ || len(p.Events) == 0 || p.Events[0].Kind != "begin" {
+			continue
+		}
+		wrote := map[string]bool{}
+		for _, e := range p.Events {
+			if e.Kind == "name" {
+				wrote[e.Name] = true
+			}
+		}
+		for f := range condSeen {
+			if wrote[tags[f]] || condBad[f] != "" {
+				continue
+			}
+			knownEmpty := false
+			for k, v := range p.State.eq {
+				if strings.HasSuffix(k, "->Object)->"+f+")") && v == "s:" {
+					knownEmpty = true
+				}
+			}
+			if !knownEmpty {
+				st, exact, _ := p.State.strOf(typePath)
+				where := "some schema type"
+				if exact {
+					where = "type " + st
+				}
+				condBad[f] = fmt.Sprintf("for %s there is a path that neither writes %q nor has found %s empty: a non-empty %s is dropped when such a schema is serialised", where, tags[f], f, f)
+			}
+		}
+	}
 	var cf []string
 	for f := range condSeen {
 		cf = append(cf, f)
@@ -475,7 +506,11 @@ func ruleJS(c *Ctx) {
 			}
 		}
 	}
-	type form struct{ ok bool; why string; seen bool }
+	type form struct {
+		ok   bool
+		why  string
+		seen bool
+	}
 	forms := map[string]*form{"string": {}, "array": {}, "object": {}, "other": {ok: true}}
 	kindName := map[string]string{"34": "string", "91": "array", "123": "object"}
 	for _, p := range upaths {
